@@ -6,6 +6,10 @@ props = [json.loads(l) for l in open(os.path.join(VERIF, 'properties.jsonl'))]
 ids = [p['id'] for p in props]
 
 CHECKS = {
+ 'C07': dict(engine='E1 enum', category='exploration', design_ref='3 C07',
+   technique='exhaustive feature lattice of applications: QName closure and cross-reference checks, rebuild under enumerated hash seeds in fresh processes, zeep driven from the WSDL alone',
+   text='The full product of services {1,2,3} x custom operation names x custom message names x in/out headers {0,1,2} x declared faults {none, one, shared} x port types x namespaces {1,2,3; 3 adds a hub type importing four more namespaces} x body style {wrapped, bare, out_bare} x SOAP 1.1/1.2 (1152 applications quick, 3888 thorough). For each: the WSDL parses; every type/base/itemType/ref/element/message/binding QName resolves; each method is exactly one portType operation with one binding operation, existing messages and the declared faults; two builds in one process and builds in fresh interpreters under ten PYTHONHASHSEED values are byte-identical; zeep built from the WSDL bytes alone calls every method (arguments, headers, declared fault) and must see equal values. The level-A programs add every alphabet value through zeep.',
+   note='zeep is trusted only where vf.ref.xsdlex agrees: requests zeep itself encodes invalidly (e.g. year-1 dates) and values it decodes differently from the reference are counted as toolkit deviations, not reported.'),
  'C06': dict(engine='E1 enum', category='exploration', design_ref='3 C06',
    technique='bounded-exhaustive enumeration: independent schema compilation, validation of every Spyne-emitted document, lxml-vs-soft verdict pairs over the facet lattice',
    text='(a) For every program of the level A / level B universe, two schema-specific programs (three namespaces with cross-namespace fields and bases, attributes with use, enum, XmlData) and every facet program, the published schema documents are serialised and compiled by lxml independently of Spyne. (b) Every request produced by Spyne\'s own client serialiser and every response of its server for every conformant alphabet value, for XmlDocument, Soap11 and Soap12, is validated against that schema. (c) For every value of the C05 facet lattice (boundaries, all 8-/16-bit values, occurrence counts, ill-formed literals) in four positions the server is run with validator=lxml and with validator=soft and the accept/reject verdicts must coincide.',
